@@ -201,11 +201,19 @@ func (l *kvsLock) supportTimeout(ver string) {
 		Version:   ver,
 		ExpiresAt: cast.Ptr(time.Now().Add(l.dlp.leaseTTL)),
 	})
+	delay := l.dlp.leaseTTL / 2
 	if err != nil {
-		l.dlp.logger.Debugf("supportTimeout raise detected, just do nothing for the key=%s, err=%s", l.key, err)
-		return
+		if errors.Is(err, errors.ErrNotExist) || errors.Is(err, errors.ErrConflict) {
+			l.dlp.logger.Debugf("supportTimeout raise detected, just do nothing for the key=%s, err=%s", l.key, err)
+			return
+		}
+		// the storage could not be reached, the record is not updated: try again with the
+		// same version soon enough to prolong the lease before it runs out
+		l.dlp.logger.Warnf("supportTimeout could not update the key=%s, will try again: err=%s", l.key, err)
+		r.Version = ver
+		delay = l.dlp.leaseTTL / 10
 	}
-	newFuture := timeout.Call(func() { l.supportTimeout(r.Version) }, l.dlp.leaseTTL/2)
+	newFuture := timeout.Call(func() { l.supportTimeout(r.Version) }, delay)
 	if !l.future.CompareAndSwap(future, newFuture) {
 		// somebody already started the new timer, so drop this and forget about the incident
 		l.dlp.logger.Debugf("supportTimeout raise 2 detected, just cancelling the call timeout")
